@@ -68,6 +68,16 @@ struct GjkrProto : Proto {
 			views.push_back(v);
 		}
 		judge_joint(*W, "gjkr", views, cfg.t, false);
+		// diagnosis -> specific finding key: Reconstruct refused because more than t parties were named in step 4(c)
+		for (size_t k = 0; k < W->viols.size(); k++)
+			if (W->viols[k].key == "gjkr/honest-failed")
+				for (size_t a = 0; a < views.size(); a++)
+					if (!views[a].ret && W->logs[views[a].party].find("too many faulty parties") != std::string::npos)
+					{
+						W->viols[k].key = "gjkr/extraction-complaint-dos";
+						W->viols[k].what += "; cause: the extraction phase named more than t parties (a complaint in step 4 is counted against the accused without being verified)";
+						break;
+					}
 		// the library's own key check must agree
 		for (size_t a = 0; a < views.size(); a++)
 			if (views[a].ret && !d[views[a].party]->CheckKey())
@@ -216,6 +226,34 @@ struct CdkgProto : Proto {
 		}
 		if (r0.have_x && r1.have_x && r0.x != r1.x)
 			W->viol("cdkg.refresh/secret-changed", "the honest shares interpolate to " + r0.x.s() + " before and " + r1.x.s() + " after Refresh");
+		// diagnosis -> specific finding keys
+		bool erased = false, requalified = false, gen_key_bad = false;
+		for (size_t a = 0; a < H.size(); a++)
+		{
+			if (snap_qual[H[a]] != v0[a].qual) erased = true;
+			for (size_t k = 0; k < q1[H[a]].size(); k++)
+				if (std::find(v1[a].qual.begin(), v1[a].qual.end(), q1[H[a]][k]) == v1[a].qual.end()) requalified = true;
+		}
+		std::vector<Viol> keep;
+		for (size_t k = 0; k < W->viols.size(); k++)
+		{
+			Viol v = W->viols[k];
+			if (v.key == "cdkg.gen/secret-vs-key" && erased)
+			{
+				gen_key_bad = true;
+				v.key = "cdkg.gen/erased-party-contribution";
+				v.what += "; cause: a party qualified in the sharing of x was erased from QUAL in step 3 (x_rvss QUAL " + set_str(v0[0].qual) + ", final QUAL " + set_str(snap_qual[H[0]]) + "): its contribution stays in every x_i but y leaves out its A_j";
+			}
+			else if (v.key == "cdkg.refresh/secret-vs-key" && gen_key_bad)
+				continue;       // same defect seen again after the refresh
+			else if (v.key == "cdkg.refresh/share-vs-commitments" && requalified)
+			{
+				v.key = "cdkg.refresh/requalified-party-commitments";
+				v.what += "; cause: a party outside x_rvss->QUAL " + set_str(v1[0].qual) + " was qualified in the zero sharing (QUAL " + set_str(q1[H[0]]) + "): its zero shares were added to x_i, its commitments are not part of the verification value";
+			}
+			keep.push_back(v);
+		}
+		W->viols = keep;
 	}
 };
 
@@ -281,11 +319,23 @@ struct PvssProto : Proto {
 			W->viol("pvss/honest-dealer-rejected", "sharing of the honest dealer " + str(dl) + " failed at honest parties" + who);
 			return;
 		}
+		// diagnosis helper: honest parties that complained about the dealer themselves
+		std::set<int> complainers;
+		for (size_t a = 0; a < H.size(); a++)
+			if (W->logs[H[a]].find("broadcast complaint against dealer") != std::string::npos) complainers.insert(H[a]);
 		if (!dealer_honest && all_accept != any_accept)
 		{
 			std::string acc;
-			for (size_t a = 0; a < H.size(); a++) acc += str(H[a]) + (W->ps[H[a]].ret[0] == 1 ? ":accept " : ":reject ");
-			W->viol("pvss/accept-disagree", "honest parties disagree on the faulty dealer " + str(dl) + ": " + acc);
+			bool only_complainers_accept = true;
+			for (size_t a = 0; a < H.size(); a++)
+			{
+				acc += str(H[a]) + (W->ps[H[a]].ret[0] == 1 ? ":accept " : ":reject ");
+				if (W->ps[H[a]].ret[0] == 1 && !complainers.count(H[a])) only_complainers_accept = false;
+			}
+			if (only_complainers_accept)
+				W->viol("pvss/complainer-skips-resolution", "honest parties disagree on the faulty dealer " + str(dl) + ": " + acc + "; the accepting parties are those that complained themselves: they do not read the dealer's public answer to their own complaint");
+			else
+				W->viol("pvss/accept-disagree", "honest parties disagree on the faulty dealer " + str(dl) + ": " + acc);
 			return;
 		}
 		if (!all_accept) return;     // the faulty dealer is disqualified by everybody
@@ -299,6 +349,7 @@ struct PvssProto : Proto {
 		}
 		Mpz lhs, rhs;
 		std::vector<Mpz> sh, shp;
+		bool bad_share = false;
 		for (size_t a = 0; a < H.size(); a++)
 		{
 			sh.push_back(Mpz(d[H[a]]->sigma_i)), shp.push_back(Mpz(d[H[a]]->tau_i));
@@ -306,8 +357,15 @@ struct PvssProto : Proto {
 			commit(lhs, G, sh[a], shp[a]);
 			eval_commitments(rhs, G, A, H[a]);
 			if (mpz_cmp(lhs, rhs))
-				W->viol("pvss/share-vs-commitments", "g^sigma_i h^tau_i of honest party " + str(H[a]) + " differs from prod_k A_k^{(i+1)^k} although the dealer " + str(dl) + " was accepted");
+			{
+				if (complainers.count(H[a]))
+					W->viol("pvss/complainer-skips-resolution", "honest party " + str(H[a]) + " complained about its share, the dealer " + str(dl) + " published a valid one and was accepted by everybody, but the complainer never reads that answer: it keeps the invalid share (g^sigma_i h^tau_i != prod_k A_k^{(i+1)^k}) and returns true");
+				else
+					W->viol("pvss/share-vs-commitments", "g^sigma_i h^tau_i of honest party " + str(H[a]) + " differs from prod_k A_k^{(i+1)^k} although the dealer " + str(dl) + " was accepted");
+				bad_share = true;
+			}
 		}
+		if (bad_share) return;
 		const size_t m = H.size();
 		if ((int)m < cfg.t + 1) return;
 		bool first = true;
@@ -406,17 +464,20 @@ static void coin_patterns(const std::vector<int> &layout, bool rest_matters, std
 	}
 }
 
-static void single_menu(const Cfg &c, int f, const Ref &ref, Proto &P, bool thorough, std::vector<Dev> &out)
+// level 0 = quick, 1 = thorough; `lean` = trimmed menu for the expensive configurations (stated in props/C15.json)
+static void single_menu(const Cfg &c, int f, const Ref &ref, Proto &P, int level, bool lean, std::vector<Dev> &out)
 {
+	const bool thorough = level > 0;
 	coin_patterns(P.coin_layout(f), P.rest_matters(f), out);
+	int lowest_other = f == 0 ? 1 : 0;
 	for (int r = 0; r < c.n; r++)
 	{
 		if (r == f || !ref.ucount[f][r]) continue;
 		for (int idx = 0; idx < ref.ucount[f][r]; idx++)
 		{
 			out.push_back(Dev::mk('W', r, idx));
-			out.push_back(Dev::mk('Q', r, idx));
-			if (thorough) out.push_back(Dev::mk('N', r, idx));
+			if (!lean || idx % 2 == 0) out.push_back(Dev::mk('Q', r, idx));
+			if (thorough && !lean) out.push_back(Dev::mk('N', r, idx));
 		}
 		out.push_back(Dev::mk('D', r));
 	}
@@ -425,10 +486,14 @@ static void single_menu(const Cfg &c, int f, const Ref &ref, Proto &P, bool thor
 	{
 		if (thorough)
 			for (int j = 1; j < c.n; j++)
-				if (j == 1 || c.n <= 5) out.push_back(Dev::mk('c', b, j));
+				if (j == 1 || (c.n <= 5 && !lean)) out.push_back(Dev::mk('c', b, j));
 		out.push_back(Dev::mk('M', b, 0));
 		out.push_back(Dev::mk('M', b, 1));
-		if (thorough) out.push_back(Dev::mk('M', b, 2)), out.push_back(Dev::mk('M', b, 3));
+		if (thorough && !lean) out.push_back(Dev::mk('M', b, 2)), out.push_back(Dev::mk('M', b, 3));
+		for (int val = 0; val <= c.n; val++)
+			if ((thorough && !lean) || val == lowest_other || val == c.n) out.push_back(Dev::mk('I', b, val));
+		for (int tg = 0; tg < c.n; tg++)
+			if (tg != f && ((thorough && !lean) || tg == lowest_other)) out.push_back(Dev::mk('J', b, tg));
 	}
 }
 
@@ -464,6 +529,7 @@ static void pair_menu(const Cfg &c, int f, int g, const Ref &ref, Proto &P, std:
 	{
 		out.push_back(Dev::mk('M', 0, 0));
 		if (ref.bcasts[f] > 1) out.push_back(Dev::mk('M', ref.bcasts[f] - 1, 1));
+		if (lowest_honest >= 0) out.push_back(Dev::mk('J', ref.bcasts[f] - 1, lowest_honest));
 	}
 }
 
@@ -518,7 +584,7 @@ static bool take(const std::string &id)
 	return mine;
 }
 
-static void run_config(Cfg c, bool thorough)
+static void run_config(Cfg c, bool thorough, bool lean)
 {
 	// fault-free reference run: judged by one shard, measured by all (it defines the alphabet)
 	Ref ref;
@@ -552,7 +618,7 @@ static void run_config(Cfg c, bool thorough)
 	for (int f = 0; f < c.n; f++)
 	{
 		std::vector<Dev> menu;
-		single_menu(c, f, ref, *P0, thorough, menu);
+		single_menu(c, f, ref, *P0, thorough ? 1 : 0, lean, menu);
 		for (size_t k = 0; k < menu.size(); k++)
 			one(std::vector<std::pair<int, Dev> >(1, std::make_pair(f, menu[k])));
 	}
@@ -601,6 +667,7 @@ int main(int argc, char **argv)
 		if (only_t >= 0 && c.t != only_t) continue;
 		if (!make_proto(c, 1)) { fprintf(stdout, "{\"t\":\"error\",\"what\":\"unknown --proto\"}\n"); return 2; }
 		int variants = c.t == 0 ? 3 : 1;
+		const bool lean = A.has("lean") ? A.geti("lean", 0) != 0 : (proto == "cdkg" && (c.n >= 6 || !thorough));
 		if (proto == "pvss")
 		{
 			for (c.dealer = 0; c.dealer < c.n; c.dealer++)
@@ -609,11 +676,11 @@ int main(int argc, char **argv)
 					// faults are enumerated for the random secret; the special secrets get the fault-free run
 					Cfg cc = c;
 					cc.variant = cc.sigma_kind == 0 ? 0 : 1;
-					run_config(cc, thorough);
+					run_config(cc, thorough, lean);
 				}
 		}
 		else
-			for (c.variant = 0; c.variant < variants; c.variant++) run_config(c, thorough);
+			for (c.variant = 0; c.variant < variants; c.variant++) run_config(c, thorough, lean);
 	}
 	rep.bound = proto + (thorough ? ": n<=7" : ": n<=5") + ", |F|<=t, one deviation per faulty party";
 	for (std::map<std::string, uint64_t>::iterator it = g_kind_count.begin(); it != g_kind_count.end(); ++it) rep.counters["dev_" + it->first] = it->second;
